@@ -9,7 +9,7 @@ use serde_json::{json, Value};
 pub const DEF: PropDef = PropDef {
     id: "C18",
     level: "exploration",
-    rule: "every assignment form (put..into, let..be, compound let, `T is <expr>`, `T is <poetic words>`, `T says`, rock T with E, rock T with a list, rock T like, rock T) x 5 targets (simple / common / proper name, pronoun, subscript) x 51 right-hand sides (0, 5, 10, 100, 105.25, 0.5, 1e21, 0.1 plus 0.2, a folding list, 0 - 5, -5, 1 over 0, 0 over 0, strings: empty, spaces, punctuation, a line break in the middle / at the end / at the start / alone / doubled, blanks at either end, tab, non-ASCII, token look-alikes, keyword-empty; non-constants: variable, call, roll, boolean, null, mixed, string concatenation, not) x 9 positions (top level, if, else, loop, function, depth 3, after a multi-line comment, after a two-line string, last line without newline); oracle: a diagnostic is due exactly when the reference predicate (ordinary expression folding to one numeric constant, or plain string literal for assignments, not compound) holds; its line is the statement's line; it quotes the value and (plain variables) the target; the starred words of the suggestion spell the digits of the value; instantiating the stars gives a line that parses, runs and leaves the target with that value; values without poetic spelling get no starred / says suggestion; linting never panics; non-trivial = all cases; distinct = distinct text",
+    rule: "every assignment form (put..into, let..be, compound let, `T is <expr>`, `T is <poetic words>`, `T says`, rock T with E, rock T with a list, rock T like, rock T) x 5 targets (simple / common / proper name, pronoun, subscript) x 51 + 235 right-hand sides (number literals of every size: 1..25 digits, 2^k and neighbours, fractions of 1..20 digits, exponents to overflow, leading zeros; 0, 5, 10, 100, 105.25, 0.5, 1e21, 0.1 plus 0.2, a folding list, 0 - 5, -5, 1 over 0, 0 over 0, strings: empty, spaces, punctuation, a line break in the middle / at the end / at the start / alone / doubled, blanks at either end, tab, non-ASCII, token look-alikes, keyword-empty; non-constants: variable, call, roll, boolean, null, mixed, string concatenation, not) x 9 positions (top level, if, else, loop, function, depth 3, after a multi-line comment, after a two-line string, last line without newline); oracle: a diagnostic is due exactly when the reference predicate (ordinary expression folding to one numeric constant, or plain string literal for assignments, not compound) holds; its line is the statement's line; it quotes the value and (plain variables) the target; the starred words of the suggestion spell the digits of the value; instantiating the stars gives a line that parses, runs and leaves the target with that value; values without poetic spelling get no starred / says suggestion; linting never panics; non-trivial = all cases; distinct = distinct text",
     assumptions: &["reference predicate and constant value computed on the position-free tree with the reference interpreter", "round-trip tolerance: 4 ulp up to 7 digits, 64 ulp for longer numerals (the rounding of poetic literals)"],
     build,
     exhaustive: true,
@@ -40,10 +40,22 @@ pub struct C18 {
     cases: Space<(usize, usize, usize, usize)>,
 }
 
+/// right-hand side number r: the hand-written list, then number literals of every size
+pub fn rhs(r: usize) -> String {
+    if r < RHS.len() {
+        RHS[r].to_string()
+    } else {
+        crate::refmodel::grammar::numerals()[r - RHS.len()].clone()
+    }
+}
+pub fn rhs_count() -> usize {
+    RHS.len() + crate::refmodel::grammar::numerals().len()
+}
+
 fn build(_tier: Tier) -> Box<dyn Check> {
     let f: Space<usize> = Space::of((0..FORMS.len()).collect());
     let t: Space<usize> = Space::of((0..TARGETS.len()).collect());
-    let r: Space<usize> = Space::of((0..RHS.len()).collect());
+    let r: Space<usize> = Space::of((0..rhs_count()).collect());
     let c: Space<usize> = Space::of((0..CONTEXTS.len()).collect());
     Box::new(C18 { cases: f.product(&t, |f, t| (f, t)).product(&r, |(f, t), r| (f, t, r)).product(&c, |(f, t, r), c| (f, t, r, c)) })
 }
@@ -172,7 +184,7 @@ fn ulps(a: f64, b: f64) -> u64 {
 impl C18 {
     fn text(&self, idx: u64) -> (String, u32, bool) {
         let (f, t, r, c) = self.cases.get(idx);
-        let stmt = fill(FORMS[f], TARGETS[t], RHS[r]);
+        let stmt = fill(FORMS[f], TARGETS[t], &rhs(r));
         let (pre, suf, nl) = CONTEXTS[c];
         // a pronoun target needs a statement that is not an assignment before it; none is needed for linting
         let line = 1 + pre.matches('\n').count() as u32;
